@@ -142,6 +142,23 @@ func loadProg(repoDir, verifDir string) (*Prog, error) {
 		}
 	}
 	splitPures = p.cs.Pures
+	// every inline contract (Root>callee, closures, helpers) must name functions that
+	// exist: a misspelt key would silently verify the code without its invariants
+	for key, sp := range p.cs.Specs {
+		if !sp.Inline || sp.Trusted {
+			continue
+		}
+		i := strings.Index(key, "::")
+		if i < 0 {
+			continue
+		}
+		pkg, ref := key[:i], key[i+2:]
+		for _, part := range strings.Split(ref, ">") {
+			if p.lookupFunc(pkg, part) == nil {
+				return nil, fmt.Errorf("inline contract %q (%s:%d): no function %s in %s", ref, sp.File, sp.Line, part, pkg)
+			}
+		}
+	}
 	return p, nil
 }
 
